@@ -619,7 +619,8 @@ func checkC17(p *Prog, r *Report) {
 				if val == nil {
 					return
 				}
-				for x := range backSlice(val, SliceOpts{}) {
+				// (through helpers of the package: freezeValue(v) that returns v.Freeze() for a freezable v)
+				for x := range backSlice(val, SliceOpts{Interproc: 2, Prog: p}) {
 					if c, ok := x.(*ssa.Call); ok && c.Call.IsInvoke() && c.Call.Method.Name() == "Freeze" {
 						deep = true
 					}
@@ -662,25 +663,36 @@ func checkC17(p *Prog, r *Report) {
 				if g.Signature.Results().Len() != 2 {
 					continue
 				}
-				for _, rc := range returnCases(g, 0) {
-					if isNilConst(rc.Vals[0]) {
-						continue
-					}
-					n++
-					v := resolveLoad(rc.Vals[0])
-					if c, ok := v.(*ssa.Call); ok && callsFn(c, sf) {
-						okk = true
-					} else {
-						okk = false
+				var judge func(h *ssa.Function, depth int)
+				judge = func(h *ssa.Function, depth int) {
+					for _, rc := range returnCases(h, 0) {
+						if isNilConst(rc.Vals[0]) {
+							continue
+						}
+						v := resolveLoad(rc.Vals[0])
+						// the callback may hand over to a method of the package that does the work: its results count
+						if hc, _ := callResult(v); hc != nil && depth < 2 && !callsFn(hc, sf) {
+							if hh := hc.Call.StaticCallee(); hh != nil && hh.Blocks != nil && hh.Pkg == sub.Pkg && hh.Signature.Results().Len() == 2 {
+								judge(hh, depth+1)
+								continue
+							}
+						}
+						n++
+						if c, ok := v.(*ssa.Call); ok && callsFn(c, sf) {
+							okk = true
+						} else {
+							okk = false
+						}
 					}
 				}
+				judge(g, 0)
 			}
 			r.check(okk && n > 0, rule, "the subinclude cache stores scope.Freeze()", p.pos(sub.Pos()), fnName(sub), "the callback's non-nil result is the frozen locals", "the globals stored in the shared subinclude cache are not the result of scope.Freeze(): every importing package receives mutable shared containers")
 			// scope.Freeze freezes every freezable local
 			all := false
 			eachInstr(sf, false, func(_ *ssa.Function, i ssa.Instruction) {
 				if mu, ok := i.(*ssa.MapUpdate); ok {
-					for x := range backSlice(mu.Value, SliceOpts{}) {
+					for x := range backSlice(mu.Value, SliceOpts{Interproc: 2, Prog: p}) {
 						if c, ok := x.(*ssa.Call); ok && c.Call.IsInvoke() && c.Call.Method.Name() == "Freeze" {
 							all = true
 						}
